@@ -4,6 +4,7 @@ network_isolation.cpp) means `checkIsolated`, for every input; and the fuel of t
 -/
 import WntrModel.Model.IsolationProg
 import WntrModel.Lemmas.IsolationDfs
+import WntrModel.Lemmas.IsolationSim
 set_option linter.unusedSimpArgs false
 namespace Wntr.Isolation.Prog
 open Wntr.Isolation
@@ -245,5 +246,205 @@ theorem execP_ref (s : Sim) (cur : Nat) (lst : List Nat) (hne : ∀ e ∈ s.mult
   unfold applyP updateGraph
   simp only [if_true]
   rw [c, a]
+
+/-! ### `_get_isolated_junctions_and_links` -/
+
+theorem visit_length (st : List Int × List Nat) (c : Nat) : (visit st c).1.length = st.1.length := by
+  unfold visit; split
+  · simp only [List.length_set]
+  · rfl
+
+theorem visit_fold_length (cs : List Nat) (st : List Int × List Nat) : (cs.foldl visit st).1.length = st.1.length := by
+  induction cs generalizing st with
+  | nil => rfl
+  | cons c cs ih => rw [List.foldl_cons, ih, visit_length]
+
+theorem explore_length (g : Csr) (f : Nat) (ind : List Int) (work : List Nat) : (explore g f ind work).1.length = ind.length := by
+  induction f generalizing ind work with
+  | zero => rfl
+  | succ f ih =>
+    unfold explore
+    cases popMax work with
+    | none => rfl
+    | some p => simp only; rw [ih, visit_fold_length]
+
+theorem checkIsolated_length (g : Csr) (srcs : List Nat) (ind : List Int) : (checkIsolated g srcs ind).length = ind.length := by
+  unfold checkIsolated
+  induction srcs generalizing ind with
+  | nil => rfl
+  | cons a l ih =>
+    rw [List.foldl_cons, ih]
+    unfold sourceStep
+    split
+    · rw [explore_length, List.length_set]
+    · rfl
+
+theorem set_self_of_getD {l : List Bool} {x : Nat} {b : Bool} (h : x < l.length → l.getD x false = b) : l.set x b = l := by
+  by_cases hx : x < l.length
+  · have hb := h hx
+    have e : l[x] = b := by
+      simp only [List.getD_eq_getElem?_getD, List.getElem?_eq_getElem hx, Option.getD_some] at hb
+      exact hb
+    rw [← e]; exact List.set_getElem_self hx
+  · exact List.set_eq_of_length_le (Nat.le_of_not_lt hx)
+
+theorem setAll_append (f : List Bool) (a b : List Nat) (v : Bool) : setAll f (a ++ b) v = setAll (setAll f a v) b v := by
+  unfold setAll; rw [List.foldl_append]
+
+theorem setAll_cons (f : List Bool) (x : Nat) (xs : List Nat) (v : Bool) : setAll f (x :: xs) v = setAll (f.set x v) xs v := rfl
+
+/-- setting flags for `xs` after `acc` = setting them for the ordered-set union -/
+theorem setAll_addAll (f : List Bool) (acc xs : List Nat) :
+    setAll (setAll f acc true) xs true = setAll f (addAll acc xs) true := by
+  induction xs generalizing acc with
+  | nil => rfl
+  | cons x xs ih =>
+    rw [setAll_cons]
+    unfold addAll
+    rw [List.foldl_cons]
+    by_cases hx : x ∈ acc
+    · rw [if_pos hx]
+      have : (setAll f acc true).set x true = setAll f acc true := by
+        apply set_self_of_getD
+        intro hlt
+        rw [getD_setAll, if_pos ⟨hx, by rw [setAll_length] at hlt; exact hlt⟩]
+      rw [this]
+      exact ih acc
+    · rw [if_neg hx]
+      have : (setAll f acc true).set x true = setAll f (acc ++ [x]) true := by
+        rw [setAll_append]; rfl
+      rw [this]
+      exact ih (acc ++ [x])
+
+theorem osAdd_fold (acc xs : List Nat) : xs.foldl osAdd acc = addAll acc xs := rfl
+
+theorem addAll_nodup (acc xs : List Nat) (hd : xs.Nodup) (hn : ∀ x ∈ xs, x ∉ acc) : addAll acc xs = acc ++ xs := by
+  induction xs generalizing acc with
+  | nil => simp [addAll]
+  | cons x xs ih =>
+    unfold addAll
+    rw [List.foldl_cons, if_neg (hn x List.mem_cons_self)]
+    have := ih (acc ++ [x]) (List.nodup_cons.mp hd).2 (by
+      intro y hy hm
+      rcases List.mem_append.mp hm with h | h
+      · exact hn y (List.mem_cons_of_mem _ hy) h
+      · have : y = x := List.mem_singleton.mp h
+        subst this
+        exact (List.nodup_cons.mp hd).1 hy)
+    unfold addAll at this
+    rw [this, List.append_assoc]; rfl
+
+/-- the two clearing loops (bodies as `simp only [blockI, execI]` leaves them) -/
+theorem clearJ_fold (js : List Nat) (st : ISt) :
+    js.foldl (fun (st : ISt) j => { st with curJ := j, isoJ := st.isoJ.set j false }) st =
+      { st with isoJ := setAll st.isoJ js false, curJ := js.getLastD st.curJ } := by
+  induction js generalizing st with
+  | nil => rfl
+  | cons j js ih =>
+    rw [List.foldl_cons, ih]
+    simp only [setAll_cons, List.getLastD_cons]
+
+theorem clearL_fold (ls : List Nat) (st : ISt) :
+    ls.foldl (fun (st : ISt) l => { st with curL := l, isoL := st.isoL.set l false }) st =
+      { st with isoL := setAll st.isoL ls false, curL := ls.getLastD st.curL } := by
+  induction ls generalizing st with
+  | nil => rfl
+  | cons l ls ih =>
+    rw [List.foldl_cons, ih]
+    simp only [setAll_cons, List.getLastD_cons]
+
+/-- inner loop over the links of one isolated junction -/
+theorem conn_fold (s : Sim) (ls : List Nat) (st : ISt) :
+    (ls.foldl (fun st l => execI s (blockI [.flagL, .addL]) { st with curL := l }) st).isoL = setAll st.isoL ls true ∧
+    (ls.foldl (fun st l => execI s (blockI [.flagL, .addL]) { st with curL := l }) st).newL = addAll st.newL ls ∧
+    (ls.foldl (fun st l => execI s (blockI [.flagL, .addL]) { st with curL := l }) st).isoJ = st.isoJ ∧
+    (ls.foldl (fun st l => execI s (blockI [.flagL, .addL]) { st with curL := l }) st).newJ = st.newJ ∧
+    (ls.foldl (fun st l => execI s (blockI [.flagL, .addL]) { st with curL := l }) st).prevJ = st.prevJ ∧
+    (ls.foldl (fun st l => execI s (blockI [.flagL, .addL]) { st with curL := l }) st).prevL = st.prevL := by
+  induction ls generalizing st with
+  | nil => exact ⟨rfl, rfl, rfl, rfl, rfl, rfl⟩
+  | cons l ls ih =>
+    rw [List.foldl_cons]
+    simp only [blockI, execI]
+    obtain ⟨a, b, c, d, e, f⟩ := ih { st with curL := l, isoL := st.isoL.set l true, newL := osAdd st.newL l }
+    exact ⟨a, b, c, d, e, f⟩
+
+def idBody : IStmt := blockI [.flagJ, .addJ, .linksOfNode, .forConnected (blockI [.flagL, .addL])]
+
+theorem ids_fold (s : Sim) (ids : List Nat) (st : ISt) (acc : List Nat) (f : List Bool) (hL : st.isoL = setAll f acc true)
+    (hacc : st.newL = acc) :
+    (ids.foldl (fun st j => execI s idBody { st with curJ := j }) st).isoJ = setAll st.isoJ ids true ∧
+    (ids.foldl (fun st j => execI s idBody { st with curJ := j }) st).newJ = addAll st.newJ ids ∧
+    (ids.foldl (fun st j => execI s idBody { st with curJ := j }) st).newL =
+      ids.foldl (fun a j => addAll a (s.net.linksOf j)) acc ∧
+    (ids.foldl (fun st j => execI s idBody { st with curJ := j }) st).isoL =
+      setAll f (ids.foldl (fun a j => addAll a (s.net.linksOf j)) acc) true ∧
+    (ids.foldl (fun st j => execI s idBody { st with curJ := j }) st).prevJ = st.prevJ ∧
+    (ids.foldl (fun st j => execI s idBody { st with curJ := j }) st).prevL = st.prevL := by
+  induction ids generalizing st acc with
+  | nil => exact ⟨rfl, rfl, hacc, hL, rfl, rfl⟩
+  | cons j ids ih =>
+    rw [List.foldl_cons, List.foldl_cons]
+    have hb : execI s idBody { st with curJ := j } =
+        (s.net.linksOf j).foldl (fun st l => execI s (blockI [.flagL, .addL]) { st with curL := l })
+          { st with curJ := j, isoJ := st.isoJ.set j true, newJ := osAdd st.newJ j, links := s.net.linksOf j } := by
+      unfold idBody
+      simp only [blockI, execI]
+    obtain ⟨c1, c2, c3, c4, c5, c6⟩ := conn_fold s (s.net.linksOf j)
+      { st with curJ := j, isoJ := st.isoJ.set j true, newJ := osAdd st.newJ j, links := s.net.linksOf j }
+    obtain ⟨i1, i2, i3, i4, i5, i6⟩ := ih (execI s idBody { st with curJ := j }) (addAll acc (s.net.linksOf j))
+      (by rw [hb, c1]; simp only; rw [hL, setAll_addAll])
+      (by rw [hb, c2]; simp only; rw [hacc])
+    refine ⟨?_, ?_, i3, i4, ?_, ?_⟩
+    · rw [i1, hb, c3]; rfl
+    · rw [i2, hb, c4]; rfl
+    · rw [i5, hb, c5]
+    · rw [i6, hb, c6]
+
+theorem isolatedIds_nodup (s : Sim) : (isolatedIds s).Nodup := by
+  unfold isolatedIds
+  exact List.Nodup.sublist List.filter_sublist List.nodup_range
+
+/-- **the program text of `_get_isolated_junctions_and_links` means `getIsolated`** -/
+theorem execI_ref (s : Sim) : applyI s (execI s refIsolated (ISt.ofSim s)) = getIsolated s := by
+  have e : refIsolated = blockI [.forPrevJ (blockI [.clearJ]), .forPrevL (blockI [.clearL]), .onesIndicator, .callSearch,
+      .idsWhereOne, .newSets, .forIds idBody, .updateModel, .keepJ, .keepL, .returnCounts] := rfl
+  rw [e]
+  simp only [blockI, execI, ISt.ofSim]
+  rw [clearJ_fold, clearL_fold]
+  simp only [checkIsolated_length, List.length_replicate]
+  have hids : (List.filter (fun i => (checkIsolated s.g s.net.sources (List.replicate s.net.n 1)).getD i 0 == 1)
+      (List.range s.net.n)) = isolatedIds s := rfl
+  rw [hids]
+  obtain ⟨a, b, c, d, _, _⟩ := ids_fold s (isolatedIds s)
+    { isoJ := setAll s.isoJ s.prevIsoJ false, isoL := setAll s.isoL s.prevIsoL false,
+      ind := checkIsolated s.g s.net.sources (List.replicate s.net.n 1), ids := isolatedIds s, newJ := [], newL := [],
+      curJ := s.prevIsoJ.getLastD 0, curL := s.prevIsoL.getLastD 0, links := [], prevJ := s.prevIsoJ, prevL := s.prevIsoL,
+      handed := none } [] (setAll s.isoL s.prevIsoL false) rfl rfl
+  unfold applyI getIsolated
+  simp only
+  rw [a, b, c, d, addAll_nodup [] (isolatedIds s) (isolatedIds_nodup s) (fun _ _ h => by cases h), List.nil_append]
+
+/-- the model updater is handed exactly (the sets of the previous solve, the sets just computed) -/
+theorem execI_ref_handed (s : Sim) :
+    (execI s refIsolated (ISt.ofSim s)).handed =
+      some ((s.prevIsoJ, s.prevIsoL), ((getIsolated s).prevIsoJ, (getIsolated s).prevIsoL)) := by
+  have e : refIsolated = blockI [.forPrevJ (blockI [.clearJ]), .forPrevL (blockI [.clearL]), .onesIndicator, .callSearch,
+      .idsWhereOne, .newSets, .forIds idBody, .updateModel, .keepJ, .keepL, .returnCounts] := rfl
+  rw [e]
+  simp only [blockI, execI, ISt.ofSim]
+  rw [clearJ_fold, clearL_fold]
+  simp only [checkIsolated_length, List.length_replicate]
+  have hids : (List.filter (fun i => (checkIsolated s.g s.net.sources (List.replicate s.net.n 1)).getD i 0 == 1)
+      (List.range s.net.n)) = isolatedIds s := rfl
+  rw [hids]
+  obtain ⟨_, b, c, _, p1, p2⟩ := ids_fold s (isolatedIds s)
+    { isoJ := setAll s.isoJ s.prevIsoJ false, isoL := setAll s.isoL s.prevIsoL false,
+      ind := checkIsolated s.g s.net.sources (List.replicate s.net.n 1), ids := isolatedIds s, newJ := [], newL := [],
+      curJ := s.prevIsoJ.getLastD 0, curL := s.prevIsoL.getLastD 0, links := [], prevJ := s.prevIsoJ, prevL := s.prevIsoL,
+      handed := none } [] (setAll s.isoL s.prevIsoL false) rfl rfl
+  unfold getIsolated
+  simp only
+  rw [b, c, p1, p2, addAll_nodup [] (isolatedIds s) (isolatedIds_nodup s) (fun _ _ h => by cases h), List.nil_append]
 
 end Wntr.Isolation.Prog
